@@ -126,7 +126,15 @@ def run():
                      kernel=["tpcn", "rwm"][j % 2], resample=["mult", "syst"][j % 2], clustering=bool(j % 2), mode=["vec", "scalar", "blobs"][j % 3])
         tasks.append(("tvf.checks.c10:cell", dict(cfg=cfgs_, c=float([-700.0 - math.pi, -650.0 + math.sqrt(2), 705.0 + math.e, -1000.0, 1000.0, -745.2][j % 6]),
                                                    seeds=[ck.subseed("sup", j, r) % 10 ** 6 for r in range(4)]), None))
-    for i in range(len(tasks) - npin - n32 - nsup):
+    # a weakly informative likelihood (logL varies by 1e-6..1e-3 over the prior) sitting on a large constant: comparisons of logL
+    # values with a relative tolerance see "no change" for one constant and "change" for another
+    nweak = ck.pick(6, 24)
+    for j in range(nweak):
+        cfgw = dict(target=["gauss2", "gauss4"][j % 2], tkw=dict(sd=[300.0, 3000.0, 100.0][j % 3]), N=[32, 48][j % 2], n_total=[128, 192][j % 2],
+                    kernel=["rwm", "tpcn"][j % 2], resample=["mult", "syst"][(j // 2) % 2], clustering=bool((j // 2) % 2), mode=["vec", "scalar"][j % 2])
+        tasks.append(("tvf.checks.c10:cell", dict(cfg=cfgw, c=float([1000.0, -800.0, 1e4, -1e5, 333.3, -12345.678][j % 6]),
+                                                   seeds=[ck.subseed("weak", j, r) % 10 ** 6 for r in range(4)]), None))
+    for i in range(len(tasks) - npin - n32 - nsup - nweak):
         if i % 3 == 1:     # a third of the small cells use an irrational shift as well
             tasks[i][1]["c"] = float(tasks[i][1]["c"] * math.sqrt(2) / 1.4)
     for i, st, val in farm.run(tasks, timeout=900, progress="C10"):
@@ -140,6 +148,8 @@ def run():
         bad, T, npairs = val
         if kw["cfg"].get("target") == "support" and abs(kw["c"]) >= 600:
             ck.event("pairs on a target with a zero-likelihood region shifted by |c| >= 650", 1)
+        if (kw["cfg"].get("tkw") or {}).get("sd", 0) >= 100:
+            ck.event("pairs on a weakly informative likelihood (logL variation 1e-6..1e-3) with |c| >= 300", 1)
         if kw["cfg"].get("xdtype") is not None:
             ck.event("pairs whose prior transform returns single-precision coordinates", 1)
         if kw["cfg"].get("pin_limit") is not None:
